@@ -49,7 +49,7 @@ Section Stable.
       end.
   Definition Inv (s : cstate) : Prop :=
     (forall t x, nget t (ths s) = Some x -> thread_ok s t x) /\
-    (forall r, r_val (get_rec r s) = v0 r + r_in (get_rec r s)).
+    (forall r, r_val (get_rec r s) = v0 r + r_in (get_rec r s) /\ r_unl (get_rec r s) = false).
 
   (* a step of some other thread u leaves thread t's clause intact when it changes at most one
      record r, and only if nobody but u holds r *)
@@ -80,7 +80,7 @@ Section Stable.
       + intro r0. apply HB.
     - (* PHit: Lock *)
       destruct Hp as [-> Hh]. inversion Hstep; subst s'; clear Hstep. unfold try_lock. rewrite Hc. cbn [is_reader negb].
-      destruct (lock_free true (get_rec r s)) eqn:Hf.
+      rewrite (proj2 (HB r)). destruct (lock_free true (get_rec r s)) eqn:Hf.
       + assert (Hwn : r_w (get_rec r s) = None) by (unfold lock_free in Hf; destruct (r_w (get_rec r s)); [discriminate|reflexivity]).
         split.
         * intros u y Hy. cbn [ths set_th set_rec] in Hy. destruct (Nat.eq_dec u t) as [->|Hu].
@@ -101,7 +101,7 @@ Section Stable.
         * intro r0. apply HB.
     - (* PWait: Lock again *)
       destruct Hp as [-> Hh]. inversion Hstep; subst s'; clear Hstep. unfold try_lock. rewrite Hc. cbn [is_reader negb].
-      destruct (lock_free true (get_rec r s)) eqn:Hf.
+      rewrite (proj2 (HB r)). destruct (lock_free true (get_rec r s)) eqn:Hf.
       + assert (Hwn : r_w (get_rec r s) = None) by (unfold lock_free in Hf; destruct (r_w (get_rec r s)); [discriminate|reflexivity]).
         split.
         * intros u y Hy. cbn [ths set_th set_rec] in Hy. destruct (Nat.eq_dec u t) as [->|Hu].
@@ -137,7 +137,7 @@ Section Stable.
           intros r0 Hw0. rewrite get_rec_set_th. destruct (Nat.eq_dec r0 r) as [->|Hr]; [congruence|].
           now rewrite get_set_rec_other.
       + intro r0. rewrite get_rec_set_th. destruct (Nat.eq_dec r0 r) as [->|Hr].
-        * rewrite get_set_rec_same. cbn. rewrite Ht, (HB r). lia.
+        * rewrite get_set_rec_same. cbn. split; [rewrite Ht, (proj1 (HB r)); lia|apply HB].
         * rewrite get_set_rec_other by exact Hr. apply HB.
     - (* PStored: commit *)
       destruct Hp as [-> [Hh Hw]]. rewrite Hc in Hstep. inversion Hstep; subst s'; clear Hstep.
@@ -210,12 +210,12 @@ Section Count.
     - inversion Hstep; subst s'. unfold lookup_next. rewrite Hc. cbn [key_of]. rewrite Hi.
       eexists. split; [reflexivity|]. split; [reflexivity|]. split; [first [reflexivity | cbn [t_cmd with_pc]; congruence]|]. right. split; [reflexivity|]. reflexivity.
     - destruct Hp as [-> Hh]. inversion Hstep; subst s'. unfold try_lock. rewrite Hc. cbn [is_reader negb].
-      destruct (lock_free true (get_rec r s)).
+      rewrite (proj2 (HB r)). destruct (lock_free true (get_rec r s)).
       + eexists. split; [reflexivity|]. split; [reflexivity|]. split; [first [reflexivity | cbn [t_cmd with_pc]; congruence]|]. right. split; [reflexivity|].
         intro r0. rewrite get_rec_set_th. destruct (Nat.eq_dec r0 r) as [->|Hr]; [now rewrite get_set_rec_same|now rewrite get_set_rec_other].
       + eexists. split; [reflexivity|]. split; [reflexivity|]. split; [first [reflexivity | cbn [t_cmd with_pc]; congruence]|]. right. split; reflexivity.
     - destruct Hp as [-> Hh]. inversion Hstep; subst s'. unfold try_lock. rewrite Hc. cbn [is_reader negb].
-      destruct (lock_free true (get_rec r s)).
+      rewrite (proj2 (HB r)). destruct (lock_free true (get_rec r s)).
       + eexists. split; [reflexivity|]. split; [reflexivity|]. split; [first [reflexivity | cbn [t_cmd with_pc]; congruence]|]. right. split; [reflexivity|].
         intro r0. rewrite get_rec_set_th. destruct (Nat.eq_dec r0 r) as [->|Hr]; [now rewrite get_set_rec_same|now rewrite get_set_rec_other].
       + eexists. split; [reflexivity|]. split; [reflexivity|]. split; [first [reflexivity | cbn [t_cmd with_pc]; congruence]|]. right. split; reflexivity.
@@ -268,7 +268,7 @@ Section Count.
   Corollary no_lost_update sched s : InvC s -> forall r,
     r_val (get_rec r (run_micro sched s)) = v0 r + Z.of_nat (acked (run_micro sched s) r).
   Proof.
-    intros H r. destruct (run_micro_invC sched s H) as [[_ HB] [_ HD]]. now rewrite HB, HD.
+    intros H r. destruct (run_micro_invC sched s H) as [[_ HB] [_ HD]]. now rewrite (proj1 (HB _)), HD.
   Qed.
 End Count.
 
@@ -293,8 +293,14 @@ Proof.
   - destruct (Nat.eqb k k') eqn:E; [apply Nat.eqb_eq in E; now subst|now apply IH].
 Qed.
 Lemma r_in_init r (vals : list (nat * Z)) :
-  r_in (match nget r (map (fun kv => (fst kv, {| r_val := snd kv; r_w := None; r_rd := []; r_in := 0; r_out := 0 |})) vals) with
+  r_in (match nget r (map (fun kv => (fst kv, {| r_val := snd kv; r_w := None; r_rd := []; r_in := 0; r_out := 0; r_unl := false |})) vals) with
         | Some x => x | None => rcd_new end) = 0.
+Proof.
+  induction vals as [|[k' v] rest IH]; cbn; [reflexivity|]. destruct (Nat.eqb r k'); [reflexivity|exact IH].
+Qed.
+Lemma r_unl_init r (vals : list (nat * Z)) :
+  r_unl (match nget r (map (fun kv => (fst kv, {| r_val := snd kv; r_w := None; r_rd := []; r_in := 0; r_out := 0; r_unl := false |})) vals) with
+         | Some x => x | None => rcd_new end) = false.
 Proof.
   induction vals as [|[k' v] rest IH]; cbn; [reflexivity|]. destruct (Nat.eqb r k'); [reflexivity|exact IH].
 Qed.
@@ -323,7 +329,9 @@ Proof.
   - intros t x Hx. unfold init_state in Hx. cbn [ths] in Hx. apply nget_combine_in in Hx.
     apply in_map_iff in Hx. destruct Hx as [c [<- Hc]]. destruct (Hp c Hc) as [k [-> Hk]].
     exists k, k. cbn. split; [reflexivity|]. split; [now apply nget_ix_init|reflexivity].
-  - intro r. unfold init_val. unfold get_rec, init_state. cbn [recs]. rewrite r_in_init. lia.
+  - intro r. split.
+    + unfold init_val. unfold get_rec, init_state. cbn [recs]. rewrite r_in_init. lia.
+    + unfold get_rec, init_state. cbn [recs]. apply r_unl_init.
   - unfold init_state. cbn [ths]. rewrite map_fst_combine by (rewrite seq_length, map_length; reflexivity). apply seq_NoDup.
   - intro r. unfold get_rec at 1. unfold init_state at 1. cbn [recs]. rewrite r_in_init.
     unfold acked. rewrite filter_none; [reflexivity|].
@@ -380,10 +388,10 @@ Proof.
     split; [|reflexivity]. unfold init_state. cbn [ths]. rewrite <- map_map.
     rewrite map_snd_combine by (rewrite seq_length, map_length; reflexivity). rewrite map_map. cbn. apply map_id. }
   split.
-  - intro r. destruct HC as [[_ HB] [_ HD]]. now rewrite HB, HD.
+  - intro r. destruct HC as [[_ HB] [_ HD]]. now rewrite (proj1 (HB _)), HD.
   - intros Hdone k Hk. destruct HS as [Hcm Hix]. unfold key_val. rewrite Hix.
     unfold init_state at 1. cbn [ix]. rewrite (nget_ix_init k vals Hk).
-    destruct HC as [[_ HB] [Hnd HD]]. rewrite HB, HD. f_equal. f_equal. f_equal.
+    destruct HC as [[_ HB] [Hnd HD]]. rewrite (proj1 (HB _)), HD. f_equal. f_equal. f_equal.
     unfold acked, pushes_of. rewrite <- Hcm.
     rewrite <- (map_length (fun tx : nat * thread => t_cmd (snd tx))).
     assert (Hf : forall l, (forall t x, In (t, x) l -> (exists rp, t_pc x = PDone rp) /\ In (t_cmd x) cmds) ->
